@@ -41,6 +41,13 @@ def roundtrip_path(run, f, dom, pth, sh):
             a, b = v.arr.origin[1], v.arr.origin[2]
             stage1, mask = (a, b) if isinstance(a, Prod2) else (b, a)
             ok = isinstance(stage1, Prod2) and isinstance(mask, Shaped) and mask.label == 'fpm' and isinstance(stage1.arr, Shaped) and stage1.arr.label == 'ary'
+        if not ok and not isinstance(v, Prod2):
+            # the value that comes back is not read as a product of two kernels around the mask (the matrix route is organised another way):
+            # nothing is known about it here -- what to_fpm_and_back computes is decided on values, or not at all
+            if getattr(run, 'roundtrip_on_values', None):
+                run.info('to_fpm_and_back (path %s): the result is not read as unfocus(focus(w) * fpm) by the KERNEL reading; the composition was decided on values' % (pth.conds,))
+                return
+            raise AnalysisError('to_fpm_and_back (path %s): the result is not followed as a product of kernels (%r)' % (pth.conds, v))
         run.check(ok, 'C05.roundtrip', f.qual, 'structure', 'unfocus(focus(w) * fpm) with the same field and mask',
                   'on the path %s to_fpm_and_back is not unfocus_fixed_sampling(focus_fixed_sampling(w) * fpm) but returns %r' % (pth.conds, v), f.loc())
         if not ok:
@@ -188,10 +195,11 @@ def check(run, db, tier):
     quick_par = None if tier == 'thorough' else [dict(zip(['n0', 'n1', 'M0', 'M1'], b)) for b in ((0, 0, 0, 0), (1, 1, 1, 1), (0, 1, 1, 0), (1, 0, 0, 1))]
     run.group(FS.run_fixed, run, db, 'C05.axisQ', 'focus_fixed_sampling', -1, quick_par)
     run.group(FS.run_fixed, run, db, 'C05.axisQ', 'unfocus_fixed_sampling', +1, quick_par)
-    run.group(roundtrip_rules, run, db)
     # to_fpm_and_back decided on values first: equal, cell by cell, to the composition of the two fixed-sampling legs around the mask
     from .c05values import roundtrip_value_rules
     n_rt = run.group(roundtrip_value_rules, run, db)
+    run.roundtrip_on_values = n_rt
+    run.group(roundtrip_rules, run, db)
 
     def roundtrip_reading(run, db):
         try:
